@@ -176,6 +176,14 @@ def session_family(rnd, n):
             mods = [{"api": "get_module_info", "slot": sl, "intent": {"slot": sl}} for sl in rnd.sample([0, 1, 3, 5, 9, 16], rnd.choice([0, 1, 2]))]
             sc["calls"] = [{"api": "open"}] + mods + [g, g2, {"api": "close"}] + ([{"api": "open"}, {"api": "close"}] if i % 2 else [])
             sc["target"]["script"] = [scr, scr2]
+            if mods and i % 3 == 0:
+                # the module-info request gets no answer (empty slot): whatever the helper did to build its route is undone
+                from .. import session
+                tr = session.run_scenario(dict(sc, id=sc["id"] + "dry"))
+                ops = [e["ops"] for e in tr["events"] if e["k"] == "call" and e["api"] == "get_module_info"]
+                if ops:
+                    sc["fault"] = {"at": "op", "n": ops[0] + 2, "kind": "raise"}
+                    sc["family"] += "-lost-reply"
         elif kind == "logix":
             sc["project"], sc["mem"] = small_project(rnd)
             sc["driver"]["init_tags"] = False
